@@ -871,3 +871,59 @@ def _fsc_loader_structure(t):
 
 add("fscLoaderUsesMaskedHalves", "Fsc", ["C17"], "acryo/loader/_base.py", "const", [],
     pattern(_fsc_loader_structure))
+
+
+# ==========================================================================================
+# C15  binning
+# ==========================================================================================
+def _bin_axis(t):
+    fn = func(t, "bin_image")
+    loop = first(fn, ast.For)
+    asg = first(loop, ast.Assign)
+    if _unparse_norm(asg) != "npix,res=divmod(s,binsize)":
+        raise SelectorMiss("npix, res = divmod(s, binsize)")
+    s_, b_ = asg.value.args
+    sl = call(loop, "slice")
+    if _unparse_norm(sl.args[0]) != "None":
+        raise SelectorMiss("slice(None, ...)")
+    ext = call(loop, "_shapes.extend").args[0]
+    if _unparse_norm(ext) != "[npix,binsize]":
+        raise SelectorMiss("_shapes.extend([npix, binsize])")
+    return ([("npix", ast.BinOp(s_, ast.FloorDiv(), b_)), ("res", ast.BinOp(s_, ast.Mod(), b_)),
+             ("stop", sl.args[1])], ["npix", "res", "stop"])
+
+
+add("binAxis", "Bin", ["C15"], "acryo/_utils.py", "lets", [("s", I), ("binsize", I)], _bin_axis)
+
+
+def _bin_sum_axes(t):
+    fn = func(t, "bin_image")
+    if _unparse_norm(assign_rhs(fn, "axis")) != "tuple((i*2+1foriinrange(img.ndim)))":
+        raise SelectorMiss("axis")
+    if _unparse_norm(ret(fn)) != "img_reshaped.sum(axis=axis)":
+        raise SelectorMiss("return")
+    if _unparse_norm(assign_rhs(fn, "img_reshaped")) != "img[slices].reshape(shapes)":
+        raise SelectorMiss("reshape")
+    return True
+
+
+add("binIsBlockSum", "Bin", ["C15"], "acryo/_utils.py", "const", [], pattern(_bin_sum_axes))
+for _nm, _file, _q in [("Loader", "acryo/loader/_loader.py", "SubtomogramLoader.binning"),
+                       ("Batch", "acryo/loader/_batch.py", "BatchLoader.binning")]:
+    add(f"binTr{_nm}", "Bin", ["C15"], _file, "expr", [("binsize", I), ("scale", R)],
+        (lambda q: lambda t: assign_rhs(func(t, q), "tr"))(_q), subst={"self.scale": "scale"})
+    add(f"binScale{_nm}", "Bin", ["C15"], _file, "expr", [("binsize", I), ("scale", R)],
+        (lambda q: lambda t: kwarg(call(func(t, q), "self.replace"), "scale"))(_q),
+        subst={"self.scale": "scale"})
+
+    def _bin_struct(q):
+        def sel(t):
+            fn = func(t, q)
+            src = _unparse_norm(fn)
+            for need in ["ifbinsize==1:returnself.copy()", "molecules=self.molecules.translate([tr,tr,tr])",
+                         "_utils.bin_image("]:
+                if need not in src.replace("\n", "").replace("    ", ""):
+                    raise SelectorMiss("missing " + need)
+            return True
+        return sel
+    add(f"binStructure{_nm}", "Bin", ["C15"], _file, "const", [], pattern(_bin_struct(_q)))
